@@ -2,6 +2,7 @@ package main
 
 import (
 	"bytes"
+	"crypto/sha256"
 	"encoding/binary"
 	"encoding/hex"
 	"fmt"
@@ -23,6 +24,7 @@ import (
 	"github.com/polynetwork/poly/core/types"
 	"github.com/polynetwork/poly/native"
 	"github.com/polynetwork/poly/native/service/cross_chain_manager/btc"
+	crosscommon "github.com/polynetwork/poly/native/service/cross_chain_manager/common"
 	"github.com/polynetwork/poly/native/service/governance/side_chain_manager"
 	"github.com/polynetwork/poly/native/service/utils"
 	"github.com/polynetwork/poly/native/storage"
@@ -52,6 +54,17 @@ type btcsel struct {
 	vals     map[int]uint64
 	selected map[int]bool
 	redeem   []byte
+	privs    []*btcec.PrivateKey
+	pending  []*pendTx
+}
+
+// a withdrawal transaction built by makeBtcTx and waiting for its signatures
+type pendTx struct {
+	raw    []byte // as stored under BTC_TX_PREFIX (inputs carry the spent outputs' scripts in SignatureScript)
+	hash   []byte // its key: hash of the unsigned transaction
+	txid   string // transaction id after the last signature (hex), "" before
+	amount int64
+	fresh  []uint64 // values of the outputs that became unspent when the last signature arrived
 }
 
 const btcChainID = uint64(1)
@@ -65,6 +78,8 @@ func (f *btcsel) Reset(r *hx.Run) {
 	f.ids = map[string]int{}
 	f.vals = map[int]uint64{}
 	f.selected = map[int]bool{}
+	f.pending = nil
+	f.privs = nil
 }
 
 func scriptOf(kind string, salt int) []byte {
@@ -237,10 +252,12 @@ func (f *btcsel) Exec(r *hx.Run, op []string) string {
 		f.redeem = nil
 		if f.m >= 1 && f.m <= f.n && f.n <= 15 { // a real m-of-n redeem script; the redeem key is its hash160
 			var addrs []*btcutil.AddressPubKey
+			f.privs = nil
 			for i := 0; i < f.n; i++ {
 				seed := make([]byte, 32)
 				seed[31], seed[0] = byte(i+1), 0x11
-				_, pub := btcec.PrivKeyFromBytes(btcec.S256(), seed)
+				priv, pub := btcec.PrivKeyFromBytes(btcec.S256(), seed)
+				f.privs = append(f.privs, priv)
 				a, err := btcutil.NewAddressPubKey(pub.SerializeCompressed(), &chaincfg.MainNetParams)
 				if err != nil {
 					return "bad-op"
@@ -253,6 +270,9 @@ func (f *btcsel) Exec(r *hx.Run, op []string) string {
 			}
 			f.redeem = red
 			f.rk = btcutil.Hash160(red)
+			// the redeem script record MultiSign reads
+			db.Put(utils.ConcatKey(utils.SideChainManagerContractAddress, []byte(side_chain_manager.REDEEM_SCRIPT),
+				utils.GetUint64Bytes(btcChainID), []byte(hex.EncodeToString(f.rk))), cstates.GenRawStorageItem(red))
 		}
 		ccmc := make([]byte, 8)
 		binary.LittleEndian.PutUint64(ccmc, uint64(utils.TyMainnet))
@@ -340,11 +360,18 @@ func (f *btcsel) Exec(r *hx.Run, op []string) string {
 		}
 		return fmt.Sprintf("ok sel=%s sum=%d fee=%d utxos=%s stxos=%s", joinInts(sel), sum, fee, joinInts(afterU), joinInts(afterS))
 	case "maketx":
-		if len(op) != 2 || f.svc == nil || f.redeem == nil {
+		if (len(op) != 2 && !(len(op) == 3 && op[2] == "self")) || f.svc == nil || f.redeem == nil {
 			return "bad-op"
 		}
 		amount, _ := strconv.ParseInt(op[1], 10, 64)
-		to, err := btcutil.NewAddressPubKeyHash(make([]byte, 20), &chaincfg.MainNetParams)
+		var to btcutil.Address
+		var err error
+		if len(op) == 3 { // pay the multisig's own witness address: the payment output becomes an unspent output too
+			wh := sha256.Sum256(f.redeem)
+			to, err = btcutil.NewAddressWitnessScriptHash(wh[:], &chaincfg.MainNetParams)
+		} else {
+			to, err = btcutil.NewAddressPubKeyHash(make([]byte, 20), &chaincfg.MainNetParams)
+		}
 		if err != nil {
 			return "bad-op"
 		}
@@ -418,7 +445,32 @@ func (f *btcsel) Exec(r *hx.Run, op []string) string {
 		if !sameMultiset(beforeU, append(append([]int{}, afterU...), ins...)) || hasDup(ins) {
 			r.Viol("C26:unspent-record-not-reduced-by-selection", fmt.Sprintf("unspent record before %v, inputs %v, unspent record after %v", beforeU, ins, afterU))
 		}
+		th := mtx.TxHash()
+		f.pending = append(f.pending, &pendTx{raw: raw, hash: th[:], amount: amount})
 		return fmt.Sprintf("ok in=%s out=%s utxos=%s stxos=%s", joinInts(ins), strings.Join(outs, ","), joinInts(afterU), joinInts(afterS))
+	case "sign", "signbad":
+		// sign <seq> <signer>: one MultiSign call of redeem-script key number <signer> on pending transaction <seq>
+		if len(op) != 3 || f.svc == nil || f.redeem == nil {
+			return "bad-op"
+		}
+		seq, _ := strconv.Atoi(op[1])
+		signer, _ := strconv.Atoi(op[2])
+		if seq < 0 || seq >= len(f.pending) || signer < 0 || signer >= len(f.privs) {
+			return "bad-op"
+		}
+		return f.multiSign(r, f.pending[seq], seq, signer, op[0] == "signbad")
+	case "settxid":
+		if len(op) != 3 || f.svc == nil {
+			return "bad-op"
+		}
+		seq, _ := strconv.Atoi(op[1])
+		if seq < 0 || seq >= len(f.pending) || f.pending[seq].txid == "" {
+			return "bad-op"
+		}
+		if f.pending[seq].txid != op[2] {
+			return "bad-txid"
+		}
+		return "ok"
 	case "dump":
 		if f.svc == nil {
 			return "bad-op"
@@ -427,6 +479,120 @@ func (f *btcsel) Exec(r *hx.Run, op []string) string {
 		return fmt.Sprintf("utxos=%s stxos=%s", joinInts(u), joinInts(s))
 	}
 	return "bad-op"
+}
+
+// multiSign performs one BTCHandler.MultiSign call with real signatures over the stored transaction.
+func (f *btcsel) multiSign(r *hx.Run, p *pendTx, seq, signer int, corrupt bool) string {
+	mtx := wire.NewMsgTx(wire.TxVersion)
+	if err := mtx.BtcDecode(bytes.NewReader(p.raw), wire.ProtocolVersion, wire.LatestEncoding); err != nil {
+		return "bad-tx"
+	}
+	pkScripts := make([][]byte, len(mtx.TxIn))
+	amts := make([]int64, len(mtx.TxIn))
+	var inIDs []int
+	for i, in := range mtx.TxIn {
+		pkScripts[i] = in.SignatureScript
+		in.SignatureScript = nil
+		id := f.ids[fmt.Sprintf("%x:%d", in.PreviousOutPoint.Hash[:], in.PreviousOutPoint.Index)]
+		amts[i] = int64(f.vals[id])
+		inIDs = append(inIDs, id)
+	}
+	var sigs [][]byte
+	for i := range mtx.TxIn {
+		var h []byte
+		var err error
+		switch txscript.GetScriptClass(pkScripts[i]) {
+		case txscript.WitnessV0ScriptHashTy:
+			h, err = txscript.CalcWitnessSigHash(f.redeem, txscript.NewTxSigHashes(mtx), txscript.SigHashAll, mtx, i, amts[i])
+		default:
+			h, err = txscript.CalcSignatureHash(f.redeem, txscript.SigHashAll, mtx, i)
+		}
+		if err != nil {
+			return "bad-sighash"
+		}
+		if corrupt && i == 0 {
+			h[0] ^= 1
+		}
+		sg, err := f.privs[signer].Sign(h)
+		if err != nil {
+			return "bad-sign"
+		}
+		sigs = append(sigs, append(sg.Serialize(), byte(txscript.SigHashAll)))
+	}
+	_, addrs, _, err := txscript.ExtractPkScriptAddrs(f.redeem, &chaincfg.MainNetParams)
+	if err != nil || signer >= len(addrs) {
+		return "bad-op"
+	}
+	param := &crosscommon.MultiSignParam{ChainID: btcChainID, RedeemKey: hex.EncodeToString(f.rk), TxHash: p.hash,
+		Address: addrs[signer].EncodeAddress(), Signs: sigs}
+	sink := common.NewZeroCopySink(nil)
+	param.Serialization(sink)
+	svc, err := native.NewNativeService(f.svc.GetCacheDB(), &types.Transaction{ChainID: 0}, 0, 0, common.Uint256{}, 0, sink.Bytes(), false)
+	if err != nil {
+		return "bad-op"
+	}
+	beforeU, beforeS := f.records()
+	if err := btc.NewBTCHandler().MultiSign(svc); err != nil {
+		r.Hist("sign.err")
+		m := err.Error()
+		switch {
+		case strings.Contains(m, "already sign"):
+			return "err:signed"
+		case strings.Contains(m, "already enough signature"):
+			return "err:enough"
+		case strings.Contains(m, "failed to verify"):
+			return "err:verify"
+		}
+		return "err:other"
+	}
+	afterU, afterS := f.records()
+	nts := svc.GetNotify()
+	if len(nts) != 1 {
+		return "no-notify"
+	}
+	st, _ := nts[0].States.([]interface{})
+	if len(st) > 0 && st[0] == "btcTxMultiSign" {
+		r.Hist("sign.pending")
+		if !sameMultiset(beforeU, afterU) || !sameMultiset(beforeS, afterS) {
+			r.Viol("C26:records-changed-by-partial-signature", "a MultiSign call that does not complete the signatures changed the unspent or spent record")
+		}
+		return "ok pending"
+	}
+	if len(st) != 6 || st[0] != "btcTxToRelay" {
+		return "bad-notify"
+	}
+	r.Hist("sign.final")
+	rawSigned, _ := hex.DecodeString(st[3].(string))
+	stx := wire.NewMsgTx(wire.TxVersion)
+	if err := stx.BtcDecode(bytes.NewReader(rawSigned), wire.ProtocolVersion, wire.LatestEncoding); err != nil {
+		return "bad-tx"
+	}
+	txid := stx.TxHash()
+	p.txid = hex.EncodeToString(txid[:])
+	wit, _ := txscript.PayToAddrScript(func() btcutil.Address {
+		wh := sha256.Sum256(f.redeem)
+		a, _ := btcutil.NewAddressWitnessScriptHash(wh[:], &chaincfg.MainNetParams)
+		return a
+	}())
+	// the outputs paying the multisig's witness script become unspent outputs with fresh ids
+	var fresh []int
+	for i, o := range stx.TxOut {
+		if bytes.Equal(o.PkScript, wit) {
+			id := 1000 + 10*seq + i
+			f.ids[fmt.Sprintf("%x:%d", txid[:], i)] = id
+			f.vals[id] = uint64(o.Value)
+			fresh = append(fresh, id)
+			p.fresh = append(p.fresh, uint64(o.Value))
+		}
+	}
+	afterU, afterS = f.records()
+	if !sameMultiset(afterU, append(append([]int{}, beforeU...), fresh...)) {
+		r.Viol("C26:unspent-record-after-signing", fmt.Sprintf("unspent record before %v, change outputs %v, after %v", beforeU, fresh, afterU))
+	}
+	if !sameMultiset(beforeS, append(append([]int{}, afterS...), inIDs...)) {
+		r.Viol("C26:spent-record-after-signing", fmt.Sprintf("spent record before %v, inputs of the signed transaction %v, after %v", beforeS, inIDs, afterS))
+	}
+	return fmt.Sprintf("ok final utxos=%s stxos=%s", joinInts(afterU), joinInts(afterS))
 }
 
 // panicClass describes the unspent record for the key of a panic report.
@@ -807,6 +973,7 @@ func (f *btcsel) genHistory(r *hx.Run, id int) {
 	}
 	steps := 2 + r.Rng.Intn(r.Pick(8, 12))
 	okN := 0
+	signedTx := 0
 	for s := 0; s < steps; s++ {
 		if r.Rng.Chance(1, 3) && next < r.Pick(13, 14) {
 			add()
@@ -839,13 +1006,52 @@ func (f *btcsel) genHistory(r *hx.Run, id int) {
 			outs = fmt.Sprintf("%d,34", []int{22, 23, 25, 34}[r.Rng.Intn(4)])
 		}
 		var res string
+		madeTx := false
 		if r.Rng.Chance(2, 5) {
-			res = r.Do(fmt.Sprintf("maketx %d", amount))
+			madeTx = true
+			if r.Rng.Chance(1, 5) {
+				res = r.Do(fmt.Sprintf("maketx %d self", amount))
+			} else {
+				res = r.Do(fmt.Sprintf("maketx %d", amount))
+			}
 		} else {
 			res = r.Do(fmt.Sprintf("choose %d %s", amount, outs))
 		}
 		if res == "panic" {
 			return
+		}
+		if madeTx && strings.HasPrefix(res, "ok") && r.Rng.Chance(3, 4) {
+			// collect the signatures of the transaction just built: mn[0] of the mn[1] redeem keys in random order,
+			// with a repeated signer, a wrong signature and a late extra signer thrown in
+			seq := len(f.pending) - 1
+			order := r.Rng.Perm(mn[1])
+			signed := 0
+			for _, k := range order {
+				if signed == mn[0] {
+					break
+				}
+				if r.Rng.Chance(1, 8) {
+					r.Do(fmt.Sprintf("signbad %d %d", seq, k))
+				}
+				sres := r.Do(fmt.Sprintf("sign %d %d", seq, k))
+				signed++
+				if r.Rng.Chance(1, 8) {
+					r.Do(fmt.Sprintf("sign %d %d", seq, k))
+				}
+				if strings.HasPrefix(sres, "ok final") {
+					r.Do(fmt.Sprintf("settxid %d %s", seq, f.pending[seq].txid))
+					signedTx++
+					for _, t := range f.pending[seq].fresh {
+						live = append(live, t)
+					}
+				}
+				if r.Rng.Chance(1, 6) { // stop half way: the change output never materialises
+					break
+				}
+			}
+			if r.Rng.Chance(1, 6) {
+				r.Do(fmt.Sprintf("sign %d %d", seq, order[len(order)-1]))
+			}
 		}
 		if strings.HasPrefix(res, "ok") {
 			okN++
@@ -858,8 +1064,9 @@ func (f *btcsel) genHistory(r *hx.Run, id int) {
 	}
 	r.Do("dump")
 	if okN >= 2 {
-		r.Nontrivial(fmt.Sprintf("hist/%d/%d/%d/ok%d", mn[0], kindStyle, valStyle, okN))
+		r.Nontrivial(fmt.Sprintf("hist/%d/%d/%d/ok%d/signed%d", mn[0], kindStyle, valStyle, okN, signedTx))
 	}
+	r.Hist(fmt.Sprintf("hist.fully-signed.%d", signedTx))
 	r.Hist(fmt.Sprintf("hist.withdrawals-ok.%d", okN))
 }
 
